@@ -124,28 +124,23 @@ var bmRunsBase sync.Map // byte target -> *roaring.Bitmap made of run containers
 func mkbmRuns(target int, id uint32) *roaring.Bitmap {
 	b, ok := bmRunsBase.Load(target)
 	if !ok {
-		bm := roaring.New()
-		for c := uint64(0); c < 20000; c++ {
-			nb := bm.Clone()
-			nb.AddRange(c<<16+10, c<<16+5000)
-			nb.RunOptimize()
-			if nb.GetSizeInBytes()+16 > uint64(target) {
-				break
+		build := func(n int) *roaring.Bitmap {
+			bm := roaring.New()
+			for c := uint64(0); c < uint64(n); c++ {
+				bm.AddRange(c<<16+10, c<<16+5000)
 			}
-			bm = nb
-			if c > 64 {
-				// beyond a few dozen containers, grow in bigger steps
-				for k := 0; k < 8; k++ {
-					c++
-					nb = bm.Clone()
-					nb.AddRange(c<<16+10, c<<16+5000)
-					nb.RunOptimize()
-					if nb.GetSizeInBytes()+16 > uint64(target) {
-						break
-					}
-					bm = nb
-				}
-			}
+			bm.RunOptimize()
+			return bm
+		}
+		one, two := build(1).GetSizeInBytes(), build(2).GetSizeInBytes()
+		n := 1
+		if per := two - one; per > 0 && uint64(target) > one+16 {
+			n = int((uint64(target)-16-one)/per) + 1
+		}
+		bm := build(n)
+		for n > 1 && bm.GetSizeInBytes()+16 > uint64(target) {
+			n--
+			bm = build(n)
 		}
 		b, _ = bmRunsBase.LoadOrStore(target, bm)
 	}
@@ -278,11 +273,50 @@ func (s *lruState) clone() *lruState {
 	return c
 }
 
+// recentResident is law L7, an ABSOLUTE consequence of L2-L5 that needs no comparison with the state before: order the
+// keys by their last use (Put, or Get that hit); as long as the largest bitmaps ever stored under the keys used since
+// then, allowance included, fit into the capacity together, nothing can have pushed the key out, so it must be
+// retrievable. A cache whose bookkeeping has gone wrong at some earlier point (an entry it can no longer find, a
+// phantom entry) fails this at the end of ANY later run, not only at the operation where it went wrong.
+func recentResident(capacity uint64, ops []cop, facts []opFact, o lruObs) string {
+	lastUse := map[uint64]int{}
+	maxSize := map[uint64]uint64{}
+	for i, op := range ops {
+		if op.put || op.reput {
+			lastUse[op.key] = i + 1
+			if facts[i].size > maxSize[op.key] {
+				maxSize[op.key] = facts[i].size
+			}
+		} else if facts[i].hit {
+			lastUse[op.key] = i + 1
+		}
+	}
+	ks := make([]uint64, 0, len(lastUse))
+	for k := range lastUse {
+		ks = append(ks, k)
+	}
+	sort.Slice(ks, func(i, j int) bool { return lastUse[ks[i]] > lastUse[ks[j]] })
+	var sum uint64
+	for _, k := range ks {
+		sum += maxSize[k] + lruSlack
+		if sum > capacity || sum < maxSize[k] {
+			break
+		}
+		if _, ok := o.resident[k]; !ok {
+			return fmt.Sprintf("L7: key %d (last used at op %d) is not retrievable although it and everything used since then fit comfortably (%d bytes incl. allowance <= %d)", k, lastUse[k]-1, sum, capacity)
+		}
+	}
+	return ""
+}
+
 // stateAfter reconstructs the law state after all of ops from ONE run: which Gets hit and how large each stored
 // bitmap was is visible at the interface while the sequence runs, the resident set comes from the terminal probe.
 // It lets a long sequence be checked at chosen positions only (two replays per position).
 func stateAfter(capacity uint64, ops []cop, keys []uint64) (*lruState, string) {
 	o, facts, law := lruRunFacts(capacity, ops, keys)
+	if law == "" {
+		law = recentResident(capacity, ops, facts, o)
+	}
 	if law != "" {
 		return nil, law
 	}
@@ -327,7 +361,10 @@ type lruStats struct {
 func (s *lruState) step(capacity uint64, ops []cop, keys []uint64, st *lruStats) string {
 	i := len(ops)
 	op := ops[i-1]
-	o, law := lruRun(capacity, ops, keys)
+	o, facts, law := lruRunFacts(capacity, ops, keys)
+	if law == "" {
+		law = recentResident(capacity, ops, facts, o)
+	}
 	if law != "" {
 		return law
 	}
@@ -416,9 +453,9 @@ func opsString(ops []cop) string {
 }
 
 func runC07(r *vf.Run) {
-	r.Rule("one evaluation = one prefix of an operation sequence replayed on a fresh LRUCache and probed (every key looked up at its end) with laws L1-L6 checked for its last operation; " +
+	r.Rule("one evaluation = one prefix of an operation sequence replayed on a fresh LRUCache and probed (every key looked up at its end) with laws L1-L6 checked for its last operation and the absolute law L7 (the most recently used entries that fit together are retrievable) for its end state; " +
 		"exhaustive part: all sequences over 3 keys x {Get, Put of 3 size classes} plus the re-Put of the same object after the caller grew it (15 symbols) up to the stated length for 5 capacities (DFS, every node is a prefix); " +
-		"random part: sequences up to length 300 over <= 12 keys, sizes 8 B .. 4x capacity; long part: crafted families (n resident entries then one displacing Put, n up to 513/4097; bursts of 0..300/2100 Get hits between two Puts) and random Get-heavy sequences up to 4300 operations over <= 151 keys, laws checked at the listed positions (two replays each); distinct_nontrivial = distinct (capacity, sequence) nodes with >= 2 operations")
+		"random part: sequences up to length 300 over <= 12 keys, sizes 8 B .. 4x capacity; long part: crafted families (n resident entries then one displacing Put, n up to 513/4097; bursts of 0..300/2100 Get hits between two Puts) and random Get-heavy sequences up to 4300 operations over <= 151 keys and 14 (thorough 100) sequences up to 9000 operations over 600-2100 keys with 150-650 entries resident, laws checked at the listed positions (two replays each); distinct_nontrivial = distinct (capacity, sequence) nodes with >= 2 operations")
 	r.Assume("per-entry bookkeeping allowance of 256 bytes for 'fits' (the implementation's is 64 bytes)", "bitmaps are not mutated by the caller after Put")
 	keys := []uint64{0, 1, 1<<64 - 1} // which three keys does not matter to a correct cache; 0 and the largest key are where sentinels live
 	var syms []cop
@@ -638,14 +675,25 @@ func runC07(r *vf.Run) {
 		}
 	}
 	// (3) random long sequences: many keys, Get-heavy, bimodal sizes
-	for i := 0; i < r.Pick(60, 600); i++ {
+	nLong, nLarge := r.Pick(60, 600), r.Pick(14, 100)
+	for i := 0; i < nLong+nLarge; i++ {
 		id := fmt.Sprintf("long/random/%03d", i)
 		rng := r.RNG(id)
 		nk := 2 + rng.Intn(150)
 		fit := 1 + rng.Intn(nk+10) // entries that fit
+		n := 300 + rng.Intn(r.Pick(1500, 4000))
+		if i >= nLong {
+			// large populations: hundreds of entries resident at once, a thousand and more keys (an index structure of the
+			// cache's own has to grow, shrink and wrap around)
+			nk = 600 + rng.Intn(1500)
+			fit = 150 + rng.Intn(500)
+			n = 4000 + rng.Intn(5000)
+		}
 		capacity := uint64(fit) * (entry + lruSlack)
 		getPct := []int{30, 80, 95, 98}[rng.Intn(4)]
-		n := 300 + rng.Intn(r.Pick(1500, 4000))
+		if i >= nLong {
+			getPct = []int{20, 50, 70}[rng.Intn(3)]
+		}
 		var seq []cop
 		var ks []uint64
 		for k := 0; k < nk; k++ {
@@ -663,8 +711,14 @@ func runC07(r *vf.Run) {
 			switch rng.Intn(12) {
 			case 0:
 				b = int(capacity) - 200 - rng.Intn(entry) // rare near-capacity entry
+				if i >= nLong {
+					b = entry * (2 + rng.Intn(20)) // large populations: an entry that displaces a few dozen others
+				}
 			case 1:
 				b = int(capacity)/2 + rng.Intn(entry)
+				if i >= nLong {
+					b = entry * (2 + rng.Intn(8))
+				}
 			case 2:
 				b = 20 + rng.Intn(entry/2)
 			}
